@@ -51,6 +51,18 @@ Definition ret_all (d : rlog) : option telegram :=
 Definition ret_one (d : rlog) : option telegram :=
   match d with (t, _) :: _ => Some t | [] => None end.
 
+(* the callback invocations one receive_all_telegrams call must make for deliveries d, for an
+   arbitrary callback f over a caller state: every delivery in order, stopping at the one flagged
+   last, whose result is returned *)
+Fixpoint feed {St R} (f : St -> telegram -> bool -> res (St * R)) (s : St) (d : rlog) : res (St * option R) :=
+  match d with
+  | [] => Ok (s, None)
+  | (t, l) :: d' =>
+      let* x := f s t l in
+      let '(s', r) := x in
+      if l : bool then Ok (s', Some r) else feed f s' d'
+  end.
+
 (* an observation of one poll: deliveries, returned value, poll_pending_received_bytes *)
 Record obs : Set := mkObs { ob_deliv : rlog; ob_ret : option telegram; ob_pending : nat }.
 
